@@ -903,6 +903,49 @@ pub fn c13(thorough: bool, stats: &mut Stats) -> Vec<Failure> {
             }
         }
     }
+    // further options and environments on small file sets: --verify with a file the verifier rejects (fault hook), a range given
+    // by ONE bound only (the differing statement lies outside of it), and the log level variable (the status must not depend on
+    // what is logged)
+    let opts: Vec<(&str, Vec<&str>, Vec<(&str, &str)>)> = vec![
+        ("verify-reject", vec!["--verify"], vec![("STYLUA_VERIF_FAULTS", "1")]),
+        ("range-start-only", vec!["--range-start", "1000"], vec![]),
+        ("range-end-only", vec!["--range-end", "0"], vec![]),
+        ("range-start-0", vec!["--range-start", "0"], vec![]),
+        ("log=off", vec![], vec![("STYLUA_LOG", "off")]),
+        ("log=error", vec![], vec![("STYLUA_LOG", "error")]),
+        ("log=debug", vec![], vec![("STYLUA_LOG", "debug")]),
+        ("log=stylua=off", vec![], vec![("STYLUA_LOG", "stylua=off")]),
+    ];
+    for ks in multisets(&[Kind::Formatted, Kind::Unformatted, Kind::Unparseable, Kind::VerifyFail, Kind::Missing], 2, false) {
+        for (oname, oargs, oenv) in &opts {
+            if ks.contains(&Kind::VerifyFail) != (*oname == "verify-reject") {
+                continue;
+            }
+            for fmt in ["Standard", "Unified", "Json", "Summary"] {
+                for layout in ["flat", "dir"] {
+                    if layout != "flat" && ks.contains(&Kind::Missing) {
+                        continue;
+                    }
+                    let paths = layout_paths(&ks, layout);
+                    let mut t = Tree::default();
+                    for (i, k) in ks.iter().enumerate() {
+                        if *k != Kind::Missing {
+                            t.add(&paths[i], &k.bytes(i));
+                        }
+                    }
+                    let mut argv: Vec<String> = vec!["--check".into(), "--color".into(), "Never".into(), "--output-format".into(), fmt.into()];
+                    argv.extend(oargs.iter().map(|x| x.to_string()));
+                    if layout == "flat" {
+                        argv.extend(paths.clone());
+                    } else {
+                        argv.push(".".into());
+                    }
+                    let desc = format!("C13 kinds={} layout={} rot=0 format={} verify={} threads=default opt={}", ks.iter().map(|k| k.letter()).collect::<String>(), layout, fmt, *oname == "verify-reject", oname);
+                    scs.push(Scenario { desc, tree: t, run: Run { argv, env: oenv.iter().map(|(a, b)| (a.to_string(), b.to_string())).collect(), ..Run::default() } });
+                }
+            }
+        }
+    }
     // histories: `stylua <files>` (write mode), then --check on the tree the program itself produced: everything that could be
     // formatted is now formatted, so only the failing kinds still count
     for ks in multisets(&[Kind::Unformatted, Kind::Formatted, Kind::Crlf, Kind::NoEol, Kind::Unparseable], if thorough { 3 } else { 2 }, false) {
@@ -927,12 +970,32 @@ pub fn c13(thorough: bool, stats: &mut Stats) -> Vec<Failure> {
             let changed: Vec<&String> = o.after.keys().filter(|k| o.before.get(*k) != o.after.get(*k)).chain(o.before.keys().filter(|k| !o.after.contains_key(*k))).collect();
             f.push(("check-wrote".into(), format!("--check modified / created / touched {:?}", changed)));
         }
-        let any_fail = kinds.iter().any(|k| matches!(k, 'P' | 'I' | 'M' | 'D'));
+        let any_fail = kinds.iter().any(|k| matches!(k, 'P' | 'I' | 'M' | 'D' | 'V'));
         let after_write = s.desc.ends_with("history=write-then-check");
-        let n_unf = if after_write { 0 } else { kinds.iter().filter(|k| matches!(**k, 'U' | 'L' | 'N')).count() };
+        let opt = s.desc.split("opt=").nth(1).unwrap_or("");
+        let n_unf = if after_write {
+            0
+        } else if opt.starts_with("range-") {
+            // what differs under a range comes from the library, called with the same one-sided range
+            let range = match opt {
+                "range-start-only" => (Some(1000usize), None),
+                "range-end-only" => (None, Some(0usize)),
+                _ => (Some(0usize), None),
+            };
+            s.tree
+                .files
+                .iter()
+                .filter(|(_, b)| {
+                    let text = String::from_utf8_lossy(b).to_string();
+                    matches!(crate::explore::run_format(&text, &Cfg::default(), 120, Some(range)).0, crate::explore::Out::Ok(x) if x != text)
+                })
+                .count()
+        } else {
+            kinds.iter().filter(|k| matches!(**k, 'U' | 'L' | 'N')).count()
+        };
         let want = if any_fail { 2 } else if n_unf > 0 { 1 } else { 0 };
         if o.code != want {
-            f.push(("exit-status".into(), format!("exit status {} but expected {} ({} failing, {} differing)", o.code, want, kinds.iter().filter(|k| matches!(k, 'P' | 'I' | 'M' | 'D')).count(), n_unf)));
+            f.push(("exit-status".into(), format!("exit status {} but expected {} ({} failing, {} differing)", o.code, want, kinds.iter().filter(|k| matches!(k, 'P' | 'I' | 'M' | 'D' | 'V')).count(), n_unf)));
         }
         let stdout = String::from_utf8_lossy(&o.stdout).to_string();
         let reported: usize = match fmt {
@@ -1798,6 +1861,12 @@ pub fn c17(thorough: bool, stats: &mut Stats) -> Vec<Failure> {
         ("check-unified", vec!["--check", "--output-format", "Unified"]),
         ("check-json", vec!["--check", "--output-format", "Json"]),
         ("check-summary", vec!["--check", "--output-format", "Summary"]),
+        // a range given by one bound only
+        ("range-start-only", vec!["--range-start", "17"]),
+        ("range-end-only", vec!["--range-end", "15"]),
+        // the log level variable must not change status or output
+        ("log=off", vec![]),
+        ("log=debug", vec![]),
         // a positive --glob pattern must not filter the stdin pseudo-file
         ("glob", vec!["-g", "**/*.lua"]),
         // an .editorconfig is present in these two (stylua.toml, when there, still comes first)
@@ -1847,7 +1916,12 @@ pub fn c17(thorough: bool, stats: &mut Stats) -> Vec<Failure> {
                     argv.push("-".into());
                     let desc = format!("C17 input={} options={} stdin_filepath={} stylua.toml={}", iname, oname, fname, with_cfg);
                     metas.push((iname.to_string(), oname.to_string(), fname.to_string(), with_cfg));
-                    scs.push(Scenario { desc, tree: t.clone(), run: Run { argv: argv.clone(), stdin: Some(bytes.clone()), ..Run::default() } });
+                    let env: Vec<(String, String)> = match *oname {
+                        "log=off" => vec![("STYLUA_LOG".into(), "off".into())],
+                        "log=debug" => vec![("STYLUA_LOG".into(), "debug".into())],
+                        _ => vec![],
+                    };
+                    scs.push(Scenario { desc, tree: t.clone(), run: Run { argv: argv.clone(), stdin: Some(bytes.clone()), env, ..Run::default() } });
                     // the same from a sub-directory with --search-parent-directories: the configuration (and the ignore
                     // file) of the parent must be found
                     if bytes.len() < 100_000 && *oname == "plain" {
@@ -1888,7 +1962,12 @@ pub fn c17(thorough: bool, stats: &mut Stats) -> Vec<Failure> {
             cfg.iw = 5;
             cfg.qs = 1;
         }
-        let range = if oname == "range" { Some((Some(0usize), Some(16usize))) } else { None };
+        let range = match oname.as_str() {
+            "range" => Some((Some(0usize), Some(16usize))),
+            "range-start-only" => Some((Some(17usize), None)),
+            "range-end-only" => Some((None, Some(15usize))),
+            _ => None,
+        };
         let skipped = matches!(fname.as_str(), "ignored.lua+respect" | "vendor/other.lua+respect" | "abs-ignored+respect");
         let expected: Option<String> = if skipped {
             Some(input.clone())
@@ -2136,7 +2215,7 @@ pub fn c20(_thorough: bool, stats: &mut Stats) -> Vec<Failure> {
     for (w, v) in &all {
         let Some(other) = all.iter().find(|(w2, v2)| v2.opt == v.opt && (v2.cfg != v.cfg || w2 != w)) else { continue };
         for (tname, targs) in [("stdin", vec!["-"]), ("stdin@f.lua", vec!["--stdin-filepath", "f.lua", "-"])] {
-            for carrier in ["stylua.toml", "flag", ".editorconfig", "flag-over-stylua.toml", "flag-over-.editorconfig"] {
+            for carrier in ["stylua.toml", "flag", ".editorconfig", "flag-over-stylua.toml", "flag-over-.editorconfig", "flag-over---config-path"] {
                 let mut t = Tree::default();
                 t.add("keep.lua", b"local x = 1\n");
                 let mut argv: Vec<String> = vec!["--color".into(), "Never".into()];
@@ -2156,6 +2235,14 @@ pub fn c20(_thorough: bool, stats: &mut Stats) -> Vec<Failure> {
                             continue;
                         }
                         t.add("stylua.toml", format!("{}\n", other.1.toml).as_bytes());
+                        argv.extend(v.flag.clone());
+                    }
+                    "flag-over---config-path" => {
+                        if v.flag.is_empty() {
+                            continue;
+                        }
+                        t.add("elsewhere/custom.toml", format!("{}\n", other.1.toml).as_bytes());
+                        argv.extend(["--config-path".to_string(), "elsewhere/custom.toml".to_string()]);
                         argv.extend(v.flag.clone());
                     }
                     _ => {
@@ -2209,6 +2296,41 @@ pub fn c20(_thorough: bool, stats: &mut Stats) -> Vec<Failure> {
             scs.push(Scenario { desc, tree: t, run: Run { argv, ..Run::default() } });
         }
     }
+    // the same three with a FILE target: the flag over a forced configuration file
+    for (w, v) in &all {
+        let Some(other) = all.iter().find(|(w2, v2)| v2.opt == v.opt && (v2.cfg != v.cfg || w2 != w)) else { continue };
+        if v.flag.is_empty() {
+            continue;
+        }
+        let mut t = Tree::default();
+        t.add("f.lua", probe.as_bytes());
+        t.add("elsewhere/custom.toml", format!("{}\n", other.1.toml).as_bytes());
+        let mut argv: Vec<String> = vec!["--color".into(), "Never".into(), "--config-path".into(), "elsewhere/custom.toml".into()];
+        argv.extend(v.flag.clone());
+        argv.push("f.lua".into());
+        let desc = format!("C20 option={} carrier=flag-over---config-path value={:?} width={} target=f.lua", v.opt, v.flag, w);
+        if metas.iter().any(|m| m.0 == desc) {
+            continue;
+        }
+        metas.push((desc.clone(), *w, v.cfg, false));
+        scs.push(Scenario { desc, tree: t, run: Run { argv, ..Run::default() } });
+    }
+    // an .editorconfig section whose glob contains a `/` (relative to the .editorconfig), the program started in a
+    // sub-directory and the file named relatively, through the directory, and absolutely
+    for (w, v) in &all {
+        let Some((k, val)) = &v.ec else { continue };
+        for (cwd, arg) in [("proj/src", "f.lua"), ("proj/src", "."), ("proj", "src/f.lua"), ("proj", "src"), ("proj/src", "$ROOT/proj/src/f.lua"), ("proj/src", "../src/f.lua")] {
+            let mut t = Tree::default();
+            t.add("proj/src/f.lua", probe.as_bytes());
+            t.add("proj/.editorconfig", format!("root = true\n[src/**.lua]\n{} = {}\n", k, val).as_bytes());
+            let desc = format!("C20 option={} carrier=.editorconfig(path-glob) value={:?} width={} cwd={} target={}", v.opt, format!("{} = {}", k, val), w, cwd, arg);
+            if metas.iter().any(|m| m.0 == desc) {
+                continue;
+            }
+            metas.push((desc.clone(), *w, v.cfg, false));
+            scs.push(Scenario { desc, tree: t, run: Run { argv: vec!["--color".into(), "Never".into(), arg.into()], cwd: cwd.into(), ..Run::default() } });
+        }
+    }
     // two files of one directory in ONE invocation whose .editorconfig sections differ: each gets its own section
     for (w, v) in &all {
         let Some(other) = all.iter().find(|(w2, v2)| v2.opt == v.opt && (v2.cfg != v.cfg || w2 != w) && v2.ec.is_some()) else { continue };
@@ -2257,7 +2379,8 @@ pub fn c20(_thorough: bool, stats: &mut Stats) -> Vec<Failure> {
             f.push(("exit-status".into(), format!("exit {} (expected {}): {}", o.code, want_code, String::from_utf8_lossy(&o.stderr).chars().take(160).collect::<String>())));
             return f;
         }
-        let got = if s.run.stdin.is_some() { String::from_utf8_lossy(&o.stdout).to_string() } else { String::from_utf8_lossy(&o.after["f.lua"].0).to_string() };
+        let fpath = if s.desc.contains("carrier=.editorconfig(path-glob)") { "proj/src/f.lua" } else { "f.lua" };
+        let got = if s.run.stdin.is_some() { String::from_utf8_lossy(&o.stdout).to_string() } else { String::from_utf8_lossy(&o.after[fpath].0).to_string() };
         let exp = if s.run.stdin.is_some() && want_code == 2 { String::new() } else { exp };
         if got != exp {
             let at = got.bytes().zip(exp.bytes()).position(|(a, b)| a != b).unwrap_or(got.len().min(exp.len()));
